@@ -243,7 +243,11 @@ def resolve( path, attribute=False ):
                       and 'attribute' not in term )     #     and the term didn't contain a supplied one
              )
             ):
-            continue # All desired terms specified; done! (ie. ignore subsequent 'element')
+            # All desired terms specified; done! (ie. ignore subsequent 'element').  A term naming a
+            # different Class, Instance or Attribute than the one resolved addresses something else.
+            assert all( result[key] == term[key] for key in result if key in term and result[key] is not None ), \
+                "Failed to override %r with path segment %r in path %r" % ( result, term, path['segment'] )
+            continue
         working			= dict( term )
         while working:
             # Each term is something like {'class':5}, {'instance':1}, or (from symbol table):
